@@ -20,6 +20,16 @@ type Clause struct {
 	Line int
 }
 
+// GhostClause is a hint attached to a program point: "after Callee#k use lemma(args)" or "after Callee#k assert expr".
+type GhostClause struct {
+	Before bool   // fire before (instead of after) the instructions of the matching line
+	Line   string // "at" ghosts: fragment of the source line after which the hint applies
+	Callee string
+	Ord    int
+	Kind   string // use | assert
+	C      *Clause
+}
+
 type LoopSpec struct {
 	Invariants []*Clause
 	Decreases  *Clause
@@ -50,9 +60,14 @@ type Contract struct {
 	File      string
 	Line      int
 	Results   []string // optional result names given as "results a b"
+	Ghosts    []*GhostClause
+	Split     *Clause // "split <int expr> lo hi": obligations may be discharged per value of the expression
+	SplitLo   int
+	SplitHi   int
 }
 
 type PredDecl struct {
+	Macro  bool
 	Name   string
 	Params []ParamDecl
 	Body   ast.Expr
@@ -76,22 +91,35 @@ type SpecDecl struct {
 	Pkg     string
 }
 
+type LemmaDecl struct {
+	Name     string
+	Params   []ParamDecl
+	Requires []string
+	Ensures  []string
+	Proof    string
+	Pkg      string
+	File     string
+	Line     int
+}
+
 type ContractSet struct {
-	ByKey  map[string]*Contract
-	Preds  map[string]*PredDecl
-	Specs  map[string]*SpecDecl
-	Files  []string
-	Errors []string
+	ByKey      map[string]*Contract
+	Lemmas     map[string]*LemmaDecl
+	LemmaOrder []string
+	Preds      map[string]*PredDecl
+	Specs      map[string]*SpecDecl
+	Files      []string
+	Errors     []string
 }
 
 var clauseKeywords = map[string]bool{
 	"property": true, "requires": true, "ensures": true, "panics": true, "modifies": true,
 	"pure": true, "loop": true, "use": true, "assume-dep": true, "inline": true, "nobody": true,
-	"allocates": true, "opt": true, "results": true,
+	"allocates": true, "opt": true, "results": true, "split": true, "after": true, "at": true, "before": true,
 }
 
 func newContractSet() *ContractSet {
-	return &ContractSet{ByKey: map[string]*Contract{}, Preds: map[string]*PredDecl{}, Specs: map[string]*SpecDecl{}}
+	return &ContractSet{ByKey: map[string]*Contract{}, Preds: map[string]*PredDecl{}, Specs: map[string]*SpecDecl{}, Lemmas: map[string]*LemmaDecl{}}
 }
 
 var reFunc = regexp.MustCompile(`^func\s+(.+)$`)
@@ -105,6 +133,8 @@ func (cs *ContractSet) parseContractFile(path string, defaultPkg, defaultPkgName
 	cs.Files = append(cs.Files, path)
 	pkg, pkgName := defaultPkg, defaultPkgName
 	var cur *Contract
+	var curLemma *LemmaDecl
+	var lemmaText *string
 	var lastClause *Clause
 	var lastPred *PredDecl
 	var pendingText *string // accumulates continuation
@@ -141,7 +171,42 @@ func (cs *ContractSet) parseContractFile(path string, defaultPkg, defaultPkgName
 		if i := strings.IndexAny(body, " \t"); i >= 0 {
 			first, rest = body[:i], strings.TrimSpace(body[i+1:])
 		}
+		if curLemma != nil {
+			switch first {
+			case "requires":
+				curLemma.Requires = append(curLemma.Requires, rest)
+				lemmaText = &curLemma.Requires[len(curLemma.Requires)-1]
+				continue
+			case "ensures":
+				curLemma.Ensures = append(curLemma.Ensures, rest)
+				lemmaText = &curLemma.Ensures[len(curLemma.Ensures)-1]
+				continue
+			case "proof":
+				curLemma.Proof = rest
+				lemmaText = nil
+				continue
+			case "package", "func", "predicate", "define", "spec", "lemma":
+				cs.finishLemma(curLemma)
+				curLemma = nil
+				lemmaText = nil
+			default:
+				if lemmaText != nil {
+					*lemmaText += " " + body
+					continue
+				}
+			}
+		}
 		switch {
+		case first == "lemma":
+			flush()
+			pd, err := parsePredHeader(rest + " = true")
+			if err != nil {
+				cs.Errors = append(cs.Errors, fmt.Sprintf("%s:%d: %v", path, ln+1, err))
+				continue
+			}
+			curLemma = &LemmaDecl{Name: pd.Name, Params: pd.Params, Pkg: pkg, File: path, Line: ln + 1}
+			cur = nil
+			continue
 		case first == "package":
 			flush()
 			pkg = rest
@@ -160,7 +225,7 @@ func (cs *ContractSet) parseContractFile(path string, defaultPkg, defaultPkgName
 			}
 			cs.ByKey[cur.Key] = cur
 			continue
-		case first == "predicate":
+		case first == "predicate" || first == "define":
 			flush()
 			pd, err := parsePredHeader(rest)
 			if err != nil {
@@ -170,6 +235,7 @@ func (cs *ContractSet) parseContractFile(path string, defaultPkg, defaultPkgName
 			pd.Pkg = pkg
 			pd.File = path
 			pd.Line = ln + 1
+			pd.Macro = first == "define"
 			lastPred = pd
 			pendingText = &pd.Text
 			cur = nil
@@ -225,8 +291,63 @@ func (cs *ContractSet) parseContractFile(path string, defaultPkg, defaultPkgName
 			} else {
 				cur.Opts[rest] = "true"
 			}
+		case "at", "before":
+			// at|before "source fragment" use|assert TEXT
+			if !strings.HasPrefix(rest, "\"") {
+				cs.Errors = append(cs.Errors, fmt.Sprintf("%s:%d: at \"fragment\" use|assert ... expected", path, ln+1))
+				continue
+			}
+			end := strings.Index(rest[1:], "\"")
+			if end < 0 {
+				cs.Errors = append(cs.Errors, fmt.Sprintf("%s:%d: unterminated fragment", path, ln+1))
+				continue
+			}
+			frag := rest[1 : 1+end]
+			tail := strings.TrimSpace(rest[2+end:])
+			kf := strings.Fields(tail)
+			if len(kf) < 2 || (kf[0] != "use" && kf[0] != "assert") {
+				cs.Errors = append(cs.Errors, fmt.Sprintf("%s:%d: at \"fragment\" use|assert ... expected", path, ln+1))
+				continue
+			}
+			text := strings.TrimSpace(strings.TrimPrefix(tail, kf[0]))
+			c := &Clause{Kind: kf[0], Text: text, File: path, Line: ln + 1}
+			cur.Ghosts = append(cur.Ghosts, &GhostClause{Line: frag, Kind: kf[0], C: c, Before: first == "before"})
+			lastClause = c
+			pendingText = &c.Text
+		case "after":
+			// after Callee#k use|assert TEXT
+			f := strings.Fields(rest)
+			if len(f) < 3 || (f[1] != "use" && f[1] != "assert") {
+				cs.Errors = append(cs.Errors, fmt.Sprintf("%s:%d: after Callee#k use|assert ... expected", path, ln+1))
+				continue
+			}
+			callee, ord := f[0], 1
+			if i := strings.Index(f[0], "#"); i >= 0 {
+				callee = f[0][:i]
+				ord, _ = strconv.Atoi(f[0][i+1:])
+			}
+			text := strings.TrimSpace(strings.TrimPrefix(strings.TrimSpace(strings.TrimPrefix(rest, f[0])), f[1]))
+			c := &Clause{Kind: f[1], Text: text, File: path, Line: ln + 1}
+			cur.Ghosts = append(cur.Ghosts, &GhostClause{Callee: callee, Ord: ord, Kind: f[1], C: c})
+			lastClause = c
+			pendingText = &c.Text
 		case "results":
 			cur.Results = strings.Fields(rest)
+		case "split":
+			f := strings.Fields(rest)
+			if len(f) < 3 {
+				cs.Errors = append(cs.Errors, fmt.Sprintf("%s:%d: split <expr> lo hi expected", path, ln+1))
+				continue
+			}
+			lo, err1 := strconv.Atoi(f[len(f)-2])
+			hi, err2 := strconv.Atoi(f[len(f)-1])
+			if err1 != nil || err2 != nil {
+				cs.Errors = append(cs.Errors, fmt.Sprintf("%s:%d: split bounds must be integers", path, ln+1))
+				continue
+			}
+			c := &Clause{Kind: "split", Text: strings.Join(f[:len(f)-2], " "), File: path, Line: ln + 1}
+			cs.finishClause(c)
+			cur.Split, cur.SplitLo, cur.SplitHi = c, lo, hi
 		case "modifies":
 			cur.HasMod = true
 			if rest == "nothing" {
@@ -289,7 +410,27 @@ func (cs *ContractSet) parseContractFile(path string, defaultPkg, defaultPkgName
 		}
 	}
 	flush()
+	if curLemma != nil {
+		cs.finishLemma(curLemma)
+	}
 	return nil
+}
+
+func (cs *ContractSet) finishLemma(l *LemmaDecl) {
+	req := "true"
+	if len(l.Requires) > 0 {
+		req = "(" + strings.Join(l.Requires, ") && (") + ")"
+	}
+	ens := "(" + strings.Join(l.Ensures, ") && (") + ")"
+	text := "impl(" + desugarImpl(req) + ", " + desugarImpl(ens) + ")"
+	e, err := parser.ParseExpr(text)
+	if err != nil {
+		cs.Errors = append(cs.Errors, fmt.Sprintf("%s:%d: lemma %s: %v", l.File, l.Line, l.Name, err))
+		return
+	}
+	cs.Preds["lemma:"+l.Name] = &PredDecl{Name: "lemma:" + l.Name, Params: l.Params, Body: e, Text: text, Pkg: l.Pkg, File: l.File, Line: l.Line}
+	cs.Lemmas[l.Name] = l
+	cs.LemmaOrder = append(cs.LemmaOrder, l.Name)
 }
 
 func (cs *ContractSet) finishClause(c *Clause) {
